@@ -531,9 +531,20 @@ func c06Run(e *env, kind string, n int, marshal func(idx []int) []byte, perCase 
 			}
 		}
 		if !each {
+			hangs := 0
 			for start := 0; start < len(idx); {
+				if hangs >= 8 {
+					// a defective tree: enough evidence, do not spend the timeout on every further case
+					for k := start; k < len(idx); k++ {
+						sub[k] = c06Res{Status: "skipped"}
+					}
+					break
+				}
 				next := c06RunRange(e, kind, f.Name(), start, len(idx), perCase, sub)
 				confirm(next - 1)
+				if next-1 >= 0 && next-1 < len(idx) && (sub[next-1].Status == "hang" || sub[next-1].Status == "fatal") {
+					hangs++
+				}
 				start = next
 			}
 		} else {
@@ -1100,6 +1111,7 @@ func c06RunRenderPlans(e *env, plans []c06Plan, perCase time.Duration) {
 	// ---- model ----
 	var reqs []string
 	reqIx := make([]int, len(plans))
+	var regOkIx, regOkCase []int
 	loaded := ""
 	for i, p := range plans {
 		reqIx[i] = -1
@@ -1108,6 +1120,9 @@ func c06RunRenderPlans(e *env, plans []c06Plan, perCase time.Duration) {
 		}
 		if p.reg != loaded {
 			reqs = append(reqs, "load_registry c06 "+regSexp[p.reg])
+			regOkIx = append(regOkIx, len(reqs))
+			regOkCase = append(regOkCase, i)
+			reqs = append(reqs, "c06_reg_ok c06")
 			loaded = p.reg
 		}
 		d := p.c.Data
@@ -1129,6 +1144,14 @@ func c06RunRenderPlans(e *env, plans []c06Plan, perCase time.Duration) {
 		os.WriteFile(d, []byte(strings.Join(reqs, "\n")+"\n"), 0o644)
 	}
 	resp := e.m.Batch(reqs)
+	// ---- the hypothesis of render_no_escape holds of every registry the compiler built ----
+	for k, ix := range regOkIx {
+		e.res.Histogram["reg_ok-checked"]++
+		if r := resp[ix]; len(r) != 1 || r[0] != "#1" {
+			e.res.Fail(hx.Violation{Kind: "mismatch", What: "a compiled registry does not satisfy reg_ok (unique names, sources and files recorded, node positions inside the source): the premise of C06_render_no_escape fails on a bundle the compiler accepted",
+				Case: plans[regOkCase[k]].c, Observed: fmt.Sprint(r)}, "")
+		}
+	}
 	// ---- compare ----
 	for i, p := range plans {
 		r := res[i]
@@ -1449,6 +1472,8 @@ func c06Globals(e *env, perCase time.Duration) {
 			e.res.Sample(map[string]interface{}{"case": short, "impl": r.Status + " " + cls})
 		}
 		switch {
+		case r.Status == "skipped":
+			continue
 		case r.Status == "hang":
 			e.res.Fail(hx.Violation{Kind: "oracle", What: "ParseGlobals does not return", Case: c, Observed: "hang"}, "")
 			continue
